@@ -481,6 +481,9 @@ def check(pid, tier, seed, replay=None):
             fid = None
             if explain and m_obs is not None and i not in mism:
                 fid = explain(cases[i], c_obs[i], findings)
+            # only findings LISTED as known in known_findings.json can explain a violation
+            if fid and fid not in {f["id"] for f in findings if f.get("status") == "known"}:
+                fid = None
             if fid:
                 known_hits.setdefault(fid, []).append(i)
             else:
@@ -545,7 +548,8 @@ def check(pid, tier, seed, replay=None):
                 v = run_sharded(drv, ["oracle"], ["%s | %s" % (c, x) for c, x in zip(cands, o)], min_chunk=50)
                 nxt = None
                 for c, x, vv in zip(cands, o, v):
-                    if not vv.startswith("OK") and not (explain and explain(c, x, findings)):
+                    if not vv.startswith("OK") and not (explain and explain(c, x, findings) in
+                                                        {f["id"] for f in findings if f.get("status") == "known"}):
                         nxt = c
                         break
                 if nxt is None:
